@@ -238,12 +238,33 @@ inductive Msg where
   | deleted (d : Nat)
   deriving DecidableEq, Repr
 
+/-- What a helper does with its hub subscriptions when its last dataset goes away.  The code that
+exists never lets go (`never`).  `keepRef` is the "leak fix" of seeded change C18c: `unregister(self._hub)`
+at the end of `clear` / `remove_data` / `set_multiple_data` of a helper without data collection,
+`self._hub` left as it is — `append_data` re-subscribes only when `self.hub is None`, so the helper
+stays deaf (theorem `unsubscribe_without_reset_breaks`).  `resetRef` also resets `_hub` to `None`:
+the lazy subscription of `append_data` then works again (covered by `combo_history_valid`). -/
+inductive Release where
+  | never | keepRef | resetRef
+  deriving DecidableEq, Repr
+
+/-- a release policy that keeps "subscribed ⇔ hub reference set". -/
+def Release.sound (r : Release) : Prop := r ≠ .keepRef
+
 structure CState where
   nData : Nat
   nCid : Nat
   data : Nat → DS
   /-- datasets in the collection. -/
   inDc : List Nat
+  /-- the helper was constructed with `data_collection` (subscribed at construction, also to
+  `DataCollectionDeleteMessage`); without one — every viewer-state / layer-state picker — it
+  subscribes lazily, in the first `append_data` of a dataset that has a hub. -/
+  hasDc : Bool
+  /-- `helper._hub is not None`. -/
+  hub : Bool
+  /-- the hub holds the helper's subscriptions (`helper in hub._subscriptions`). -/
+  sub : Bool
   /-- `helper._data`. -/
   hdata : List Nat
   F : Flags
@@ -262,11 +283,14 @@ def defaultFlags : Flags :=
   { numeric := true, datetime := true, categorical := true, pixel := false, world := false,
     derived := true, none := false }
 
-/-- a fresh helper (`ComponentIDComboHelper(state, prop, data_collection)`) next to `n` datasets
-with arbitrary component tables. -/
-def cinitWith (n nCid : Nat) (data : Nat → DS) (idx : Int) : CState :=
-  { nData := n, nCid := nCid, data := data, inDc := List.range n, hdata := [], F := defaultFlags,
-    pick := ⟨idx, [], none⟩, depth := 0, queue := [], err := false }
+/-- a fresh helper next to `n` datasets (all in the collection, so all of them have the hub) with
+arbitrary component tables: `ComponentIDComboHelper(state, prop, data_collection)` (`hasDc`: the hub
+setter subscribes in `__init__`) or `ComponentIDComboHelper(state, prop)` (`self.hub = None`). -/
+def cinitH (hasDc : Bool) (n nCid : Nat) (data : Nat → DS) (idx : Int) : CState :=
+  { nData := n, nCid := nCid, data := data, inDc := List.range n, hasDc := hasDc, hub := hasDc, sub := hasDc,
+    hdata := [], F := defaultFlags, pick := ⟨idx, [], none⟩, depth := 0, queue := [], err := false }
+
+def cinitWith (n nCid : Nat) (data : Nat → DS) (idx : Int) : CState := cinitH true n nCid data idx
 
 def cinit (n : Nat) (idx : Int) : CState := cinitWith n (5 * n) initDS idx
 
@@ -299,25 +323,45 @@ def tmplTotal (ts : List Tmpl) : Nat := (ts.map Tmpl.size).sum
 def cinitT (ts : List Tmpl) (idx : Int) : CState :=
   cinitWith ts.length (tmplTotal ts) (tmplTable ts 0 0) idx
 
+/-- the same world with a helper built without a data collection (how viewer and layer states
+build their pickers). -/
+def cinitTH (hasDc : Bool) (ts : List Tmpl) (idx : Int) : CState :=
+  cinitH hasDc ts.length (tmplTotal ts) (tmplTable ts 0 0) idx
+
 def upd {α : Type} (f : Nat → α) (k : Nat) (v : α) : Nat → α := fun x => if x = k then v else f x
 
 /-- `helper.refresh()`. -/
 def doRefresh (st : CState) : CState :=
   { st with pick := st.pick.step (.setChoices (refresh st.F (st.hdata.map st.data))) }
 
-/-- `helper.remove_data(d)`. -/
-def helperRemove (d : Nat) (st : CState) : CState :=
-  if st.hdata.contains d then doRefresh { st with hdata := st.hdata.erase d } else st
+/-- the head of `append_data`: `if self.hub is None: if data.hub is not None: self.hub = data.hub`
+— the hub setter calls `register_to_hub`.  (Every dataset of this world has the one hub, so the
+`ValueError` branch for a different hub is never taken.) -/
+def latch (st : CState) : CState := if st.hub then st else { st with hub := true, sub := true }
 
-/-- delivery of one message to the helper (filters evaluated at delivery time). -/
-def deliver (st : CState) : Msg → CState
-  | .changed d => if st.hdata.contains d then doRefresh st else st
+/-- the tail of `clear` / `remove_data` / `set_multiple_data` in the variants that let go of the hub
+(`_release_hub_if_unused` of seeded change C18c); the identity for the code that exists. -/
+def release (r : Release) (st : CState) : CState :=
+  match r with
+  | .never => st
+  | .keepRef => if !st.hasDc && st.hub && st.hdata.isEmpty then { st with sub := false } else st
+  | .resetRef => if !st.hasDc && st.hub && st.hdata.isEmpty then { st with sub := false, hub := false } else st
+
+/-- `helper.remove_data(d)`. -/
+def helperRemove (r : Release) (d : Nat) (st : CState) : CState :=
+  if st.hdata.contains d then release r (doRefresh { st with hdata := st.hdata.erase d }) else st
+
+/-- delivery of one message: only to a helper the hub has subscriptions for (looked up at delivery
+time), filters evaluated at delivery time; the collection's delete message only for a helper that
+was given the collection. -/
+def deliver (r : Release) (st : CState) : Msg → CState
+  | .changed d => if st.sub && st.hdata.contains d then doRefresh st else st
   | .renamed _ => st
-  | .deleted d => helperRemove d st
+  | .deleted d => if st.sub && st.hasDc then helperRemove r d st else st
 
 /-- `hub.broadcast(msg)`. -/
-def bcast (m : Msg) (st : CState) : CState :=
-  if st.depth > 0 then { st with queue := st.queue ++ [m] } else deliver st m
+def bcast (r : Release) (m : Msg) (st : CState) : CState :=
+  if st.depth > 0 then { st with queue := st.queue ++ [m] } else deliver r st m
 
 inductive FlagName where
   | numeric | datetime | categorical | pixel | world | derived | none
@@ -348,6 +392,8 @@ inductive COp where
   | helperAppend (d : Nat)
   | helperRemove (d : Nat)
   | setMultiple (ds : List Nat)
+  /-- `helper.clear()`. -/
+  | helperClear
   | setFlag (f : FlagName) (b : Bool)
   | dcRemove (d : Nat)
   | dcAppend (d : Nat)
@@ -366,53 +412,59 @@ def removeCid (d : DS) (c : Nat) : DS :=
 /-- `unique_data_iter` + the `append_data(refresh=False)` loop of `set_multiple_data`. -/
 def dedup (xs : List Nat) : List Nat := xs.foldl (fun acc x => if acc.contains x then acc else acc ++ [x]) []
 
-def cstep (st0 : CState) (op : COp) : CState :=
+def cstepR (r : Release) (st0 : CState) (op : COp) : CState :=
   let st := { st0 with err := false }
   match op with
   | .addComp d k =>
     if d < st.nData then
       let D := st.data d
-      bcast (.changed d) { st with nCid := st.nCid + 1, data := upd st.data d { D with main := D.main ++ [(st.nCid, k)] } }
+      bcast r (.changed d) { st with nCid := st.nCid + 1, data := upd st.data d { D with main := D.main ++ [(st.nCid, k)] } }
     else st
   | .addDerived d =>
     if d < st.nData then
       let D := st.data d
-      bcast (.changed d) { st with nCid := st.nCid + 1, data := upd st.data d { D with derived := D.derived ++ [st.nCid] } }
+      bcast r (.changed d) { st with nCid := st.nCid + 1, data := upd st.data d { D with derived := D.derived ++ [st.nCid] } }
     else st
   | .removeComp d i =>
     if d < st.nData then
       match (compsOf (st.data d))[i]? with
-      | some c => bcast (.changed d) { st with data := upd st.data d (removeCid (st.data d) c) }
+      | some c => bcast r (.changed d) { st with data := upd st.data d (removeCid (st.data d) c) }
       | none => st
     else st
   | .rename d i =>
     if d < st.nData then
       match (compsOf (st.data d))[i]? with
-      | some _ => bcast (.renamed d) st
+      | some _ => bcast r (.renamed d) st
       | none => st
     else st
   | .reorder d =>
     if d < st.nData then
       let D := st.data d
-      bcast (.changed d) { st with data := upd st.data d { D with main := D.main.reverse, derived := D.derived.reverse } }
+      bcast r (.changed d) { st with data := upd st.data d { D with main := D.main.reverse, derived := D.derived.reverse } }
     else st
   | .replace d i =>
     if d < st.nData then
       let D := st.data d
       match D.main[i]? with
       | some p =>
-        bcast (.changed d) { st with nCid := st.nCid + 1,
-                                     data := upd st.data d { D with main := D.main.set i (st.nCid, p.2) } }
+        bcast r (.changed d) { st with nCid := st.nCid + 1,
+                                       data := upd st.data d { D with main := D.main.set i (st.nCid, p.2) } }
       | none => st
     else st
   | .helperAppend d =>
-    if d < st.nData ∧ !st.hdata.contains d then doRefresh { st with hdata := st.hdata ++ [d] } else st
-  | .helperRemove d => if d < st.nData then helperRemove d st else st
+    if d < st.nData then
+      let st := latch st
+      if !st.hdata.contains d then doRefresh { st with hdata := st.hdata ++ [d] } else st
+    else st
+  | .helperRemove d => if d < st.nData then helperRemove r d st else st
   | .setMultiple ds =>
-    doRefresh { st with hdata := dedup (ds.filter (· < st.nData)) }
+    let ds := dedup (ds.filter (· < st.nData))
+    let st := if ds.isEmpty then st else latch st
+    release r (doRefresh { st with hdata := ds })
+  | .helperClear => release r (doRefresh { st with hdata := [] })
   | .setFlag f b => doRefresh { st with F := st.F.set f b }
   | .dcRemove d =>
-    if st.inDc.contains d then bcast (.deleted d) { st with inDc := st.inDc.erase d } else st
+    if st.inDc.contains d then bcast r (.deleted d) { st with inDc := st.inDc.erase d } else st
   | .dcAppend d =>
     if d < st.nData ∧ !st.inDc.contains d then { st with inDc := st.inDc ++ [d] } else st
   | .select v =>
@@ -421,15 +473,23 @@ def cstep (st0 : CState) (op : COp) : CState :=
   | .delayOpen => { st with depth := st.depth + 1 }
   | .delayClose =>
     if st.depth = 0 then st
-    else if st.depth = 1 then st.queue.foldl deliver { st with depth := 0, queue := [] }
+    else if st.depth = 1 then st.queue.foldl (deliver r) { st with depth := 0, queue := [] }
     else { st with depth := st.depth - 1 }
 
+def crunR (r : Release) (st : CState) (ops : List COp) : CState := ops.foldl (cstepR r) st
+
+/-- the code that exists: a helper never gives up its subscriptions. -/
+def cstep (st : CState) (op : COp) : CState := cstepR .never st op
 def crun (st : CState) (ops : List COp) : CState := ops.foldl cstep st
 
 /-- Spec for a helper snapshot taken while no delay block is open: the choices are exactly what
 `refresh` computes from the datasets *as they are now*, and the selection is valid. -/
 def comboOk (F : Flags) (ds : List DS) (choices : List Choice) (sel : Option Nat) : Bool :=
   choices == refresh F ds && selOk choices sel
+
+/-- Spec for the helper as a hub listener, at every moment: a helper that holds a dataset is
+subscribed (otherwise it cannot follow that dataset's components). -/
+def subOk (hdata : List Nat) (sub : Bool) : Bool := hdata.isEmpty || sub
 
 /-! ## 4. `ManualDataComboHelper` / `DataCollectionComboHelper`: pickers of datasets -/
 
